@@ -25,10 +25,10 @@ def run(ctx):
         prog, info = load_program(cfg, "e57")
         ctx.configs[cfg] = info
         ctx.cfg = cfg
-        bounds_rules.update_table(ctx, prog, "R1")
-        bounds_rules.orientation(ctx, prog, "R2")
-        bounds_rules.presence_sets(ctx, prog, "R3")
-        bounds_rules.default_limits(ctx, prog, "R4")
-        bounds_rules.validation_before_update(ctx, prog, "R6")
-        xml_rules.inverse_maps(ctx, prog, "R7", "R7", "R7", only=("CartesianBounds", "SphericalBounds", "IndexBounds", "ColorLimits", "IntensityLimits", "PointCloud"))
+        ctx.call(bounds_rules.update_table, prog, "R1")
+        ctx.call(bounds_rules.orientation, prog, "R2")
+        ctx.call(bounds_rules.presence_sets, prog, "R3")
+        ctx.call(bounds_rules.default_limits, prog, "R4")
+        ctx.call(bounds_rules.validation_before_update, prog, "R6")
+        ctx.call(xml_rules.inverse_maps, prog, "R7", "R7", "R7", only=("CartesianBounds", "SphericalBounds", "IndexBounds", "ColorLimits", "IntensityLimits", "PointCloud"))
     ctx.cfg = None
